@@ -1,7 +1,7 @@
 """C06 - no child is ever lost, duplicated or orphaned (invariant in every explored state)."""
 from mc import structcheck
 
-PROFILES = [('full', 4000, 60000), ('adds', 3000, 40000), ('fwd', 20000, 200000), ('deep', 70000, 600000), ('full!unchecked', 500, 8000), ('toggle', 1500, 10000)]
+PROFILES = [('full', 4000, 60000), ('adds', 3000, 40000), ('fwd', 20000, 200000), ('deep', 70000, 600000), ('full!unchecked', 500, 8000), ('toggle', 1500, 1500)]
 
 
 def run(tier):
